@@ -572,4 +572,42 @@ func litestream.(*Replica).syncOnce(r, ctx, maxSyncLTXFiles) (result, err)
   ensures [C05.synced-flag] result.synced ==> c05_uploaded
   ensures [C05.ack-not-ahead] err == nil && !result.limited ==> r.pos.TXID <= c05_dpos
   loop 0 invariant r.db == old(r.db) && txID == r.pos.TXID + 1 && dpos.TXID == c05_dpos && (result.synced ==> c05_uploaded) && !result.limited
+
+// ---------------------------------------------------------------------------
+// C14: the only SQL litestream ever issues (closed-world sweep over every database/sql call site
+// of package litestream; the last three statements run on a restored output database, not the source).
+pred allowedSQL(q int) =
+     q == "PRAGMA journal_mode = wal;"
+  || q == "CREATE TABLE IF NOT EXISTS _litestream_seq (id INTEGER PRIMARY KEY, seq INTEGER);"
+  || q == "CREATE TABLE IF NOT EXISTS _litestream_lock (id INTEGER);"
+  || q == "PRAGMA page_size;"
+  || q == "SELECT COUNT(1) FROM _litestream_seq;"
+  || q == "INSERT INTO _litestream_seq (id, seq) VALUES (1, 1) ON CONFLICT (id) DO UPDATE SET seq = seq + 1"
+  || q == "INSERT INTO _litestream_lock (id) VALUES (1);"
+  || (exists m int :: {concat("PRAGMA wal_checkpoint(", m)} q == concat(concat("PRAGMA wal_checkpoint(", m), ");"))
+  || q == "PRAGMA wal_checkpoint(TRUNCATE)"
+  || q == concat("PRAGMA ", "quick_check")
+  || q == concat("PRAGMA ", "integrity_check")
+
+global
+  at sql.(*DB).ExecContext#any assert [C14.sql] allowedSQL($arg1)
+  at sql.(*DB).Exec#any assert [C14.sql] allowedSQL($arg0)
+  at sql.(*DB).QueryRowContext#any assert [C14.sql] allowedSQL($arg1)
+  at sql.(*DB).QueryRow#any assert [C14.sql] allowedSQL($arg0)
+  at sql.(*DB).QueryContext#any assert [C14.sql] allowedSQL($arg1)
+  at sql.(*DB).Query#any assert [C14.sql] allowedSQL($arg0)
+  at sql.(*DB).PrepareContext#any assert [C14.sql] allowedSQL($arg1)
+  at sql.(*DB).Prepare#any assert [C14.sql] allowedSQL($arg0)
+  at sql.(*Tx).ExecContext#any assert [C14.sql] allowedSQL($arg1)
+  at sql.(*Tx).Exec#any assert [C14.sql] allowedSQL($arg0)
+  at sql.(*Tx).QueryRowContext#any assert [C14.sql] allowedSQL($arg1)
+  at sql.(*Tx).QueryRow#any assert [C14.sql] allowedSQL($arg0)
+  at sql.(*Tx).QueryContext#any assert [C14.sql] allowedSQL($arg1)
+  at sql.(*Tx).Query#any assert [C14.sql] allowedSQL($arg0)
+  at sql.(*Tx).PrepareContext#any assert [C14.sql] allowedSQL($arg1)
+  at sql.(*Tx).Prepare#any assert [C14.sql] allowedSQL($arg0)
+  at sql.(*Conn).ExecContext#any assert [C14.sql] allowedSQL($arg1)
+  at sql.(*Conn).QueryRowContext#any assert [C14.sql] allowedSQL($arg1)
+  at sql.(*Conn).QueryContext#any assert [C14.sql] allowedSQL($arg1)
+  at sql.(*Tx).Commit#any assert [C14.rollback] !tx_lockrow[$recv]
 */
